@@ -68,6 +68,7 @@ def enumerate_cases(tier, seed):
           continue
         out.append(dict(sub="parse", cls=cls, pos=list(pos), tier=tier))
     out.append(dict(sub="hostile", cls=cls))
+    out.append(dict(sub="history", cls=cls, depth=3 if tier == "quick" else 4))
     out.append(dict(sub="order", cls=cls, tier=tier))
   for c in c09.enumerate_cases(tier, seed):
     if not c.get("registry"):
@@ -185,6 +186,69 @@ def run_parse(case):
           "state": "parse:%s:%r" % (cls, case["pos"]), "digest": common.digest(evals, nontriv, digest_acc[:50]),
           "violations": viol, "traces": evals,
           "sample": {"sub": "parse", "example_text": cls + "(" + ",".join(case["pos"]) + ")", "texts": evals}}
+
+
+def run_history(case):
+  """Every sequence (to the depth bound) of safe_eval invocations that share their argument text: plain, with a keyword
+  override passed by the caller, with an extra positional parameter passed by the caller, and the same argument text
+  under another class.  Parsing is a function of the call alone: each result must be what Python builds for that call."""
+  from qkeras import quantizers as Q  # pylint: disable=import-outside-toplevel
+  from qkeras.safe_eval import safe_eval  # pylint: disable=import-outside-toplevel
+  ns = _namespace()
+  cls = case["cls"]
+  kws = _keywords(cls)
+  other = "quantized_relu" if cls != "quantized_relu" else "quantized_bits"
+  viol = []
+  evals = 0
+  outcomes = set()
+
+  def bad(clause, what, text):
+    if len(viol) < 6 and not any(v["key"].endswith(clause) for v in viol):
+      viol.append({"key": "history:%s" % clause, "what": what, "detail": {"text": text, "cls": cls}})
+
+  def build(fn):
+    try:
+      return fn(), None
+    except Exception as e:  # pylint: disable=broad-except
+      return None, type(e).__name__
+  for argtext, pyargs in (("(4,2)", (4, 2)), ("(8)", (8,)), ("(3,1,1)", (3, 1, 1))):
+    # a keyword the argument text does not already bind positionally, with a non-default value
+    free = [k for k in kws[len(pyargs):]]
+    ops = {
+        "P": (lambda: safe_eval(cls + argtext, dict(ns)), lambda: ns[cls](*pyargs)),
+        "O": (lambda: safe_eval(other + argtext, dict(ns)), lambda: ns[other](*pyargs)),
+        "X": (lambda: safe_eval(cls + argtext, dict(ns), 1), lambda: ns[cls](*(pyargs + (1,)))),
+    }
+    if free:
+      kwname = free[-1]
+      ops["K"] = (lambda: safe_eval(cls + argtext, dict(ns), **{kwname: 0.125}), lambda: ns[cls](*pyargs, **{kwname: 0.125}))
+      kw2 = free[0]
+      ops["L"] = (lambda: safe_eval(cls + argtext, dict(ns), **{kw2: 1}), lambda: ns[cls](*pyargs, **{kw2: 1}))
+    names = sorted(ops)
+    for d in range(1, case["depth"] + 1):
+      for hist in itertools.product(names, repeat=d):
+        if "K" not in hist and "L" not in hist and "X" not in hist:
+          continue       # histories without any caller-supplied argument are the parse sub-check
+        for step, op in enumerate(hist):
+          got, got_exc = build(ops[op][0])
+          ref, ref_exc = build(ops[op][1])
+          evals += 1
+          outcomes.add((op, got_exc))
+          label = "%s%s after %r" % (cls if op != "O" else other, argtext, list(hist[:step]))
+          if (ref_exc is None) != (got_exc is None):
+            bad("raise-mismatch", "%s (%s): Python %s, safe_eval %s" % (label, op, ref_exc or "constructs", got_exc or "constructs"), label)
+            break
+          if ref_exc is not None:
+            continue
+          if type(got) is not type(ref) or not _same(_vars(got), _vars(ref)):
+            vg, vr = _vars(got), _vars(ref)
+            diff = sorted(k for k in set(vg) | set(vr) if not _same(vg.get(k), vr.get(k)))
+            bad("arguments", "%s (%s): attributes %r differ: parsed %r, Python %r" % (
+                label, op, diff[:3], [vg.get(k) for k in diff[:3]], [vr.get(k) for k in diff[:3]]), label)
+            break
+  return {"evals": evals, "transitions": evals, "nontrivial": int(len(outcomes) > 1), "state": "history:" + cls,
+          "digest": common.digest(evals, sorted(map(repr, outcomes))), "violations": viol, "traces": evals,
+          "sample": {"sub": "history", "cls": cls, "calls": evals}}
 
 
 def _kind(pos, kwset):
@@ -337,6 +401,9 @@ def run_print(case):
 
 
 def run_case(case):
+  if case["sub"] == "history":
+    common.tf_init()
+    return run_history(case)
   common.tf_init()
   common.reset_keras()
   return {"parse": run_parse, "hostile": run_hostile, "order": run_order, "print": run_print}[case["sub"]](case)
